@@ -225,7 +225,8 @@ CHECKS.update({
              "function; TLC picks the protocol, N (2..6, 7 thorough), the fanout and every possible routing function / tree and "
              "explores every interleaving of sends and deliveries: EveryoneReceives, ExactlyOnceTurbine, OneRelayBroadcastRotor hold "
              "in every terminal state. Code->spec: three independently constructed instances per validator and kind (Rotor::new, "
-             "Rotor::new_fa1, Turbine with several fanouts; construction and query order shuffled, caches re-queried) run on a "
+             "Rotor::new_fa1, Turbine with several fanouts; construction and query order shuffled, caches re-queried; incl. "
+             "instances switched with with_sampler / with_fanout after routing under an outdated configuration) run on a "
              "recording network; TLC validates every recorded send against the spec with the routing function UNLOGGED (inferred "
              "from first use): any instance acting inconsistently is an agreement divergence, the delivery predicates are evaluated "
              "at run end.",
@@ -268,6 +269,24 @@ CHECKS.update({
              "arrival orders at <= 8 shreds per slice; ideal crypto in the spec; one slot, <= 2 slices; repair path not driven; " + TB,
         technique="TLA+ spec (commitment algebra + block-store state machine) + TLC exhaustive exploration and case/sequence enumeration + spec->code replay",
         design="4 C12"),
+})
+
+CHECKS.update({
+    "C13": dict(
+        text="Blockstore.tla models one slot's dissemination spot as pure operators in the code's order (misbehaviour flag, "
+             "commitment cache, last-slice consistency, duplicate, first shred without reconstruction, slice, block) counting real "
+             "shreds (32 of 64) in fixed groups; scenarios generated in TLA+: correct blocks of 1-3 slices with and without one "
+             "parent switch, a conflicting signed slice at every position, one malformed slice of every class at every position "
+             "(undecodable payload / transactions, no parent, switch to itself, switch twice, parent not in an earlier slot), the "
+             "leader fast path. TLC checks 18 invariants (BlockIffComplete, BlockIsLeaders, FirstShredOnce, BlockOnce, InvalidOnce, "
+             "NoBlockAfterInvalid, MalformedFlagged in either arrival order, ServesAll, FastPathEqualsFollower); every transition "
+             "is replayed into a real BlockstoreImpl with slices shredded by the real shredder and signed by a leader key, comparing "
+             "return values, events, the announced block, the Pool::add_block hand-over, the projected state, and after completion "
+             "all shreds / slice roots / proofs served.",
+        note="one slot, dissemination spot only (repair spots: C14), <= 3 slices, five fixed groupings of shred indices; the node's "
+             "ingest glue (consensus.rs) is transcribed in the driver, the real one is exercised by the simulator (C01/C10); " + TB,
+        technique="TLA+ spec + TLC exhaustive BFS + spec->code transition replay",
+        design="4 C13"),
 })
 
 NOT_YET = {
